@@ -101,3 +101,13 @@ check("C07",
       "concrete cube with a pinned sector angle; <= 2 interior curve points; curve-snapped edges on analytic curves outside",
       "symbolic execution of the real Python code with z3 (symx), read-back parser, concrete replay",
       "DESIGN.md 4/C07")
+check("C06",
+      "Bounded symbolic execution of the real Mesh.write (assemble, grade, every list/item description writer, write_vtk) "
+      "for template scripts of three boxes with symbolic origin/extents and solver-chosen selectors (patch sides, projected "
+      "side with edges/points, deleted operation, patch-modification sequence) plus zones, default patch, merged pair, "
+      "settings and geometry; the file is read back by an independent parser and every section is related to the "
+      "declarations with geometric side oracles (number tokens give symbolic equality of coordinates).",
+      "number->text formatting is replaced by tokens in symbolic mode (the concrete replay parses the real 8-decimal text); "
+      "templates of three boxes; sphere auto-geometry outside",
+      "symbolic execution of the real Python code with z3 (symx), read-back parser, concrete replay",
+      "DESIGN.md 4/C06")
